@@ -523,3 +523,35 @@ def sources_of(prog, fn, operand, depth=4, _seen=None):
                 sub = {(p, e + '.' + '.'.join(fields[1:])) for p, e in sub}
             out |= sub
     return out or {(fn.path, ex)}
+
+
+def variant_edges(fn, adt_pat, variant_idx, nvariants):
+    """Edges taken exactly when an enum value is of variant `variant_idx`: either the arm of a direct match, or - for the
+    `matches!(x, V(..))` idiom - the edge of the later bool switch on the flag that only that arm sets differently.
+    Returns list of (src_bb, dst_bb, other_dst_bb)."""
+    out = []
+    for sw in enum_switches(fn, adt_pat):
+        tgt = arm(sw, variant_idx)
+        others = {arm(sw, k) for k in range(nvariants) if k != variant_idx}
+        if tgt in others:
+            continue
+        flags = {}
+        for k in range(nvariants):
+            b = arm(sw, k)
+            for s in fn.blocks[b]['s']:
+                if 'lhs' in s and is_bare(s['lhs']) and s['rv']['k'] == 'use' and const_int(s['rv']['a']) in (0, 1) and s['rv']['a'].get('c') == 'bool':
+                    flags.setdefault(s['lhs']['l'], {})[k] = const_int(s['rv']['a'])
+        used_flag = False
+        for l, m in flags.items():
+            if len(m) >= 2 and variant_idx in m and all(v != m[variant_idx] for k, v in m.items() if k != variant_idx):
+                for bb, p, ts, fs in bool_branches(fn):
+                    if p is not None and is_bare(p) and p['l'] == l:
+                        used_flag = True
+                        if m[variant_idx] == 1:
+                            out.append((bb, ts, fs))
+                        else:
+                            out.append((bb, fs, ts))
+        if not used_flag:
+            other = next(iter(others)) if others else None
+            out.append((sw['bb'], tgt, other))
+    return out
